@@ -74,6 +74,10 @@ EXPLANATION += (
     ' Round 7: validation chooses its integer type from the np.round-ed extremes against both bounds (R-ARITH/int-width, rule of C16); gene columns are selected by a name-derived fancy index.'
 )
 
+EXPLANATION += (
+    ' Round 8: sparse rows are densified by column index, not by position (R-SAMEVAL/placed-by-index, rule of C05).'
+)
+
 RULE_TEXT = (
     "one obligation per dominance / typestate / provenance relation named "
     "above")
